@@ -298,13 +298,13 @@ def showVerdicts (vs : List (String × Spec.Verdict)) (all : Bool) : String :=
 def encProps : List String := ["C03", "C04", "C05", "C06", "C07", "C08", "C16"]
 def decProps : List String := ["C02", "C09", "C10"]
 def lenProps : List String := ["C04", "C10", "C17"]
-def procProps : List String := ["C02", "C10", "C11", "C12", "C13", "C14", "C15"]
+def procProps : List String := ["C02", "C03", "C04", "C05", "C10", "C11", "C12", "C13", "C14", "C15"]
 
 /-- answer = model observation, verdicts on the implementation's observation (all that apply),
 verdicts on the model's own observation that are not ok (tripwire: must print `-`) -/
 def answer (m : String) (judge : String → Option (List (String × Spec.Verdict))) (impl : Option String) : String :=
   let mv := match judge m with
-    | some vs => showVerdicts vs false
+    | some vs => showVerdicts vs true
     | none => "unparsed"
   match impl with
   | none => s!"{m} ## I:- M:{mv}"
